@@ -51,12 +51,12 @@ P = {'id': 'C13',
              'integers, bool, String, Option, Box, context-free Rc/Arc, Vec / sets / maps, arrays, tuples, Result, the metadata form, arbitrarily nested), '
              'versioned records of versioning.rs (serialize_with_manager / deserialize_with_manager, serialize_versioned / deserialize_versioned, '
              'VersionedSerializer::deserialize_from_bytes with its VersionConfig checks), StreamBufferedWriter and ZeroCopyWriter as state machines over a '
-             'short-write inner writer, RangeWriter as a transducer to inner writes (with seeks), a buffered reader stacked on a RangeReader, '
+             'short-write inner writer, RangeWriter as a transducer to inner writes (with seeks), a buffered reader stacked on a RangeReader, MmapZeroCopyReader, '
              'the preset readers performance_optimized / low_latency / ZeroCopyReader::new',
              'spec-only (oracle on the real code, no mechanism model): every DataInput/DataOutput back end pairing (Vec, std::io writer/reader, file, append, '
              'mmap output, MmapDataInput, MemoryMappedInput, buffered / zero-copy / range wrappers), tuples up to 12, arrays, Result, HashMap/HashSet/BTreeMap/BTreeSet, '
              'nested collections (as DataInput/DataOutput back ends; their layouts are modelled), ComplexTypeSerializer configurations and batches, Weak pointers and shared-pointer contexts, '
-             'VersionProxy ranges, migrations, bulk endian conversion, endianness magic, MmapZeroCopyReader, MultiRangeReader, a RangeReader stacked on a buffered reader, '
+             'VersionProxy ranges, migrations, bulk endian conversion, endianness magic, MultiRangeReader, a RangeReader stacked on a buffered reader, '
              'seeks on the buffered writer, ZeroCopyBuffer on its own, MemoryMappedOutput; second pass (design/C13.md, "Oracle breadth"): preset constructors and configurations, the strategy chooser, '
              'sequences and collections of up to 70 000 elements and inputs of up to 8.6 MB named by (kind, n, seed), VectoredIO, UTF-8 / CRC32C of buffered bytes, '
              'ZeroCopyBuffer, seekable buffered / range / memory-mapped writers, MultiRangeReader range management, context reuse, cross-version records and migrations',
